@@ -74,6 +74,31 @@ MovesFn(h, kn) ==
     LET t == h[1] IN
     IF Len(h) > 1 THEN <<>> ELSE MapS(FnExprs(t), LAMBDA e : MMutate(1, <<KV("r", e)>>))
 
+(* thorough tier: every two-level composition of the integer-closed arithmetic operators, comparisons of compositions, *)
+(* and two-level Kleene compositions - generated, not hand-picked *)
+ArI  == <<"add", "sub", "mul", "floordiv", "mod">>
+CmpO == <<"eq", "ne", "lt", "le", "gt", "ge">>
+BoolO == <<"and", "or", "xor">>
+FnExprs2(t) ==
+    LET x == Col(ByName(t)["x"])
+        y == Col(ByName(t)["y"])
+        p == Col(ByName(t)["p"])
+        q == Col(ByName(t)["q"])
+    IN  Flat(MapS(ArI \o <<"truediv", "fill_null">>, LAMBDA o1 : Flat(MapS(ArI, LAMBDA o2 :
+            <<Fn2(o1, Fn2(o2, x, y), y), Fn2(o1, x, Fn2(o2, y, x)), Fn2(o1, Fn2(o2, x, LitI(2)), Fn2(o2, y, LitI(-3)))>>))))
+        \o Flat(MapS(CmpO, LAMBDA c : Flat(MapS(ArI, LAMBDA o2 : <<Fn2(c, Fn2(o2, x, y), x), Fn2(c, LitI(0), Fn2(o2, x, y))>>))))
+        \o Flat(MapS(BoolO, LAMBDA b1 : Flat(MapS(BoolO, LAMBDA b2 :
+            <<Fn2(b1, Fn2(b2, p, q), q), Fn2(b1, Fn1("not", p), Fn2(b2, q, p)), Fn1("not", Fn2(b1, p, Fn2(b2, q, LitB(TRUE))))>>))))
+        \o Flat(MapS(BoolO, LAMBDA b : Flat(MapS(CmpO, LAMBDA c : <<Fn2(b, Fn2(c, x, y), p), Fn2(b, Fn2(c, x, LitI(0)), Fn2(c, y, LitI(0)))>>))))
+        \o Flat(MapS(CmpO, LAMBDA c : <<Case1D(Fn2(c, x, y), x, y), Case2D(Fn2(c, x, LitI(0)), LitI(1), Fn2(c, y, LitI(0)), LitI(2), LitN),
+                                        FnN("coalesce", <<Case1(Fn2(c, x, y), x), y, LitI(0)>>)>>))
+        \o Flat(MapS(ArI, LAMBDA o : <<FnN("hmax", <<Fn2(o, x, y), x>>), FnN("hmin", <<Fn2(o, x, y), y, LitI(0)>>), Fn1("abs", Fn2(o, x, y)),
+                                       Fn1("neg", Fn2(o, y, x)), Fn3("clip", Fn2(o, x, y), LitI(-5), LitI(5)), FnN("is_in", <<Fn2(o, x, y), x, y>>),
+                                       Fn1("is_null", Fn2(o, x, y)), Cast(Fn2(o, x, y), "float")>>))
+
+MovesFn2(h, kn) ==
+    IF Len(h) > 1 THEN <<>> ELSE MapS(FnExprs2(h[1]), LAMBDA e : MMutate(1, <<KV("r", e)>>))
+
 ---------------------------------------------------------------------------
 (* C18: python string literals in every operator position that takes one, against column data holding the same characters *)
 Pats == <<<<97>>,
